@@ -63,7 +63,7 @@ type Conn struct {
 	// LogAfterClose: a publish made after Close is refused, but still written to the log
 	// (kind "pub", note "after-close").
 	LogAfterClose bool
-	nsub, npub       int
+	nsub, npub    int
 	// OnPublish is called (outside the lock) after a publish was logged.
 	OnPublish func(Entry)
 }
